@@ -651,6 +651,15 @@ impl Group {
         key_tag: u16,
         cache: &SigCache,
     ) -> bool {
+        // RFC 4035, Section 5.3.1:
+        // - The RRSIG RR's Signer's Name field MUST be the name of the zone
+        //   that contains the RRset.
+        // The caller knows the zone as signer_name. This is not part of the
+        // cache key, so check it here.
+        if !sig.data().signer_name().name_eq(signer_name) {
+            return false;
+        }
+
         // Whether a signature is within its validity period changes as
         // time passes. That part of the check cannot come from the cache.
         let ts_now = Timestamp::now();
